@@ -831,6 +831,7 @@ func (r *RegisteredDecoys) getExpiredRegistrations() []string {
 	defer r.m.RUnlock()
 
 	var expiredRegTimeoutIndices = []string{}
+	verifhook.Yield("sweep:scan", nil)
 
 	for idx, regTimeout := range r.decoysTimeouts {
 		if regTimeout.status == regStatusUnused && time.Since(regTimeout.registrationTime) > r.timeoutUnused {
